@@ -44,7 +44,7 @@ def run(ctx):
             fh.write(open(os.path.join(o, "recs.ndjson")).read())
 
     # 4. TLC judges every record
-    n, bad, lines = ctx.check_records("Fn_Policy", allp, shard=ctx.pick(1500, 6000), timeout=2400)
+    n, bad, lines = ctx.check_records("Fn_Policy", allp, shard=ctx.pick(2500, 8000), timeout=2400)
     bykey = {}
     for i in bad:
         k = _key(json.loads(lines[i - 1]))
